@@ -128,7 +128,36 @@ def run(tier, only=None):
             fs = valid(cond, z3.Or(*defs) if len(defs) > 1 else defs[0], meth, file)
             if fs is not None:
                 cex.setdefault((name, tuple(fs)), []).append((os.path.relpath(file, REPO), 'method ' + meth))
-        stats[name] = {'modules': len(c.mods), 'references': len(c.refs), 'flavoured_method_calls': len(c.method_calls), 'unresolved': sum(unknown.values()), 'unresolved_kinds': dict(sorted(unknown.items(), key=lambda x: -x[1])[:5]),
+        # the same item defined differently under different configurations: codecs using it may behave differently
+        nalt = 0
+        for mp, m in c.mods.items():
+            for iname, lst in m.bodies.items():
+                if len(lst) < 2 or len(set(x[2] for x in lst)) < 2:
+                    continue
+                for a in range(len(lst)):
+                    for b in range(a + 1, len(lst)):
+                        ka, ca, ha, fa = lst[a]
+                        kb, cb, hb, fb = lst[b]
+                        if ha == hb:
+                            continue
+                        sol.push()
+                        sol.add(ca)
+                        ra = sol.check()
+                        sol.pop()
+                        sol.push()
+                        sol.add(cb)
+                        rb = sol.check()
+                        sol.pop()
+                        sol.push()
+                        sol.add(ca != cb)
+                        rd = sol.check()
+                        sol.pop()
+                        nq += 3
+                        if ra == z3.sat and rb == z3.sat and rd == z3.sat:
+                            nalt += 1
+                            ck.violation('%s/%s::%s/configuration-dependent' % (name, '::'.join(mp), iname), '%s: %s %s::%s has two different definitions selected by cfg (%s vs %s): code using it behaves differently between feature sets that both build' % (
+                                name, ka, '::'.join(mp) or 'crate', iname, str(z3.simplify(ca))[:120], str(z3.simplify(cb))[:120]), {'crate': name, 'item': iname, 'file': os.path.relpath(fa, REPO)}, confirmed=True)
+        stats[name] = {'configuration_dependent_definitions': nalt, 'modules': len(c.mods), 'references': len(c.refs), 'flavoured_method_calls': len(c.method_calls), 'unresolved': sum(unknown.values()), 'unresolved_kinds': dict(sorted(unknown.items(), key=lambda x: -x[1])[:5]),
                        'cfg_inside_fn_bodies': len(c.body_cfgs), 'features': sorted(c.f.vars), 'files_not_scanned': c.unparsed[:5]}
     # replay each distinct counterexample configuration natively
     nnative = 0
@@ -145,7 +174,7 @@ def run(tier, only=None):
     for name, s in stats.items():
         ck.sample(dict(s, crate=name))
     ck.assume('claim restricted to the build half of the property and to what the scanner resolves: module declarations, item definitions, use trees, crate::/super::/self:: paths, paths into optional dependencies (tokio, async-std, wow_srp, chrono, serde), paths from wow_world_messages into wow_world_base, and calls of tokio_*/astd_* methods; unresolved references (re-exports through globs, names brought in by macros) are counted in the evidence and not judged')
-    ck.assume('cfg(test) is taken as false (library builds); "a codec that exists in two configurations behaves identically": only the number of cfg attributes inside function bodies is reported, behaviour is not compared')
+    ck.assume('cfg(test) is taken as false (library builds); "a codec that exists in two configurations behaves identically": decided only structurally: no const/static/fn/type of a module may have two different bodies selected by different cfg conditions, and the cfg attributes inside function bodies are counted (none); behaviour itself is not compared')
     ck.assume('feature model: [features] tables, optional dependencies as implicit features, "dep/feature" enabling the dependency, and for wow_world_messages the features it switches on in wow_world_base (workspace dependency with default-features = false)')
     return ck.finish({'states': max(nref, 1), 'transitions': max(nq, 1), 'traces_validated_against_impl': nnative, 'references': nref, 'external_dependency_references': next_, 'method_calls': nmeth,
                       'unresolved_references': nunk, 'solver_queries': nq, 'native_builds': nnative,
